@@ -98,6 +98,9 @@ func init() {
 	Register(&Check{ID: "C02", Level: "exploration",
 		Rule: "one case = one generated workflow (no streaming) with a tape-chosen subset of its output files placed on disk before the run (arbitrary bytes incl. empty, with or without audit file, possibly splitting a multi-output task), run under one schedule; or the history 'complete run, run again in place'. Oracle: no start event for any task one of whose outputs pre-existed; (inode, mtime, size, bytes) of every pre-existing file unchanged; when no task is split: exit 0 and every downstream output equals the reference evaluated WITH the pre-existing bytes; second run: empty trace, nothing changed. distinct = event-log hash; non-trivial = >=1 pre-existing file or a second run, >=1 task executed or skipped, >=1 non-default choice",
 		Run: func(c *Case) Verdict {
+			if c.Tape.Choose(simrt.StGen, 12, 0) == 1 {
+				return inPlaceCase(c)
+			}
 			w := Generate(c.Tape, tierProfile(profC02, c.Tier))
 			ex0 := Eval(w)
 			if c.Tape.Choose(simrt.StGen, 4, 0) == 1 {
@@ -249,7 +252,17 @@ func init() {
 					}
 				}
 			}
-			inc := RunInc(w, c.Tape, root, nextIno, IncOpts{KillAt: -1, Strategy: strategyOf(c.Tape), Trace: c.Trace})
+			o := IncOpts{KillAt: -1, Strategy: strategyOf(c.Tape), Trace: c.Trace}
+			if len(pre) > 0 && c.Tape.Choose(simrt.StFault, 6, 0) == 1 {
+				// the process runs out of file descriptors for a while (EMFILE on calls
+				// that open something; stat needs none). Stopping with an error is fine;
+				// what exists must still neither be re-made nor touched
+				o.NoFDFrom = 1 + c.Tape.Choose(simrt.StFault, 60, 0)
+				o.NoFDLen = 1 + c.Tape.Choose(simrt.StFault, 8, 0)
+				split = true // (safety clauses only)
+				c.Sample = fmt.Sprintf("no file descriptors for the open calls #%d..#%d; %s", o.NoFDFrom, o.NoFDFrom+o.NoFDLen-1, c.Sample)
+			}
+			inc := RunInc(w, c.Tape, root, nextIno, o)
 			c.Absorb(inc)
 			if len(pre) > 0 {
 				c.Tasks = max(c.Tasks, 2)
@@ -284,6 +297,87 @@ func init() {
 			}
 			return flowOracle(inc, ex)
 		}})
+}
+
+// inPlaceCase: a process whose declared output path IS its input path
+// (SetOut("o0", "{i:a}")): the output exists whenever a task of it is scheduled,
+// so its command is never executed, the file keeps bytes, inode and
+// modification time, and downstream processes still receive it.
+func inPlaceCase(c *Case) Verdict {
+	t := c.Tape
+	w := &WF{Name: "wf", Sources: map[string]string{}, MaxTasks: 1 + t.Choose(simrt.StGen, 3, 0), Bufsize: bufsizeOf(t)}
+	ref := &WF{Name: "wf", Sources: map[string]string{}, MaxTasks: w.MaxTasks, Bufsize: w.Bufsize}
+	n := 1 + t.Choose(simrt.StGen, 3, 0)
+	pre := t.Choose(simrt.StGen, 2, 0) == 1
+	var es []Edge
+	for _, x := range []*WF{w, ref} {
+		e := Edge{srcNode(x, "src0", n, ""), "out"}
+		if pre {
+			e = Edge{oneToOne(x, "pre", e), "o0"}
+		}
+		es = append(es, e)
+	}
+	ni := addNode(w, Node{Name: "norm", Kind: KProc, Cores: 1,
+		Ins:  []InSpec{{Name: "a", From: []Edge{es[0]}}},
+		Outs: []OutSpec{{Name: "o0", Pattern: "{i:a}"}}})
+	oneToOne(w, "use", Edge{ni, "o0"})
+	oneToOne(ref, "use", es[1]) // the reference result: as if "norm" were not there
+	c.Sample = "output path = input path: " + sample(w)
+	c.Probe("in-place-output")
+	ex := Eval(ref)
+	// every input of "norm" exists before its task is scheduled: remember the
+	// files as they are when they first appear (journal order does not matter:
+	// they are written once)
+	inc := RunInc(w, c.Tape, nil, 0, IncOpts{KillAt: -1, Strategy: strategyOf(c.Tape), Trace: c.Trace, Snapshots: true})
+	c.Absorb(inc)
+	c.Tasks = max(c.Tasks, 2)
+	if v, ok := inconclusiveEnd(inc); ok {
+		return v
+	}
+	for _, e := range inc.Sim.Shell.Trace {
+		if e.Kind == "start" && e.Name == "norm" {
+			return Viol("existing-output-reexecuted", "in-place", "task %s was executed although its output (= its input %v) already existed", e.Key, e.Argv)
+		}
+	}
+	// the in-place files: identity when first complete vs at the end
+	first := map[string]fileID{}
+	var paths []string
+	for _, it := range Eval(ref).Streams[ref.Nodes[es[1].Node].Name+"."+es[1].Port].Items {
+		paths = append(paths, Abs(it.Path))
+	}
+	for _, sn := range inc.Snaps {
+		for _, p := range paths {
+			if _, seen := first[p]; seen {
+				continue
+			}
+			if id, ok := idOf(sn.Root, p); ok && id.data == string(ex.Files[p]) {
+				first[p] = id
+			} else if src, isSrc := w.Sources[strings.TrimPrefix(p, "/work/")]; ok && isSrc && id.data == src {
+				first[p] = id
+			}
+		}
+	}
+	for _, p := range paths {
+		if _, ok := first[p]; !ok {
+			if id, ok := idOf(inc.StartFS, p); ok {
+				first[p] = id
+			}
+		}
+	}
+	for _, p := range paths {
+		a, ok1 := first[p]
+		b, ok2 := idOf(inc.Sim.FS.Root, p)
+		if ok1 && (!ok2 || a != b) {
+			return Viol("existing-output-modified", "in-place", "file %s is the declared output of a task and existed when the task was scheduled, but changed: (ino,mtime,bytes) %v -> %v", p, short(a), short(b))
+		}
+	}
+	if !completedOK(inc) {
+		return Viol("no-completion", "in-place", "workflow with an in-place output did not complete: %s", endDesc(inc))
+	}
+	if cl, d := checkFinalFiles(inc.Sim.FS.Root, ex, false); cl != "" {
+		return Viol("downstream-not-served/"+cl, "in-place", "%s", d)
+	}
+	return OK()
 }
 
 func short(f fileID) string { return fmt.Sprintf("(%d,%d,%q)", f.ino, f.mtime, clip([]byte(f.data))) }
